@@ -29,6 +29,7 @@ EXPLANATION += ' (R3, round 8) the event payload is decided by evaluating Replic
 EXPLANATION += ' (R10, round 9) = C14.R11: the OpenOpts builders keep the field they do not set (a subscriber handed over with the open request is registered whatever the order of the builders).'
 EXPLANATION += " (R11, round 10) nothing in the crate calls close() on a channel of replica events (senders are dropped, never closed; the store actor's inbox close is the positive example)."
 EXPLANATION += ' (R12, round 11) the content-status callback the actor was spawned with is kept as given and installed in every replica it opens.'
+EXPLANATION += " (R13, round 12) = C06.R4's failing-body rows: an entry whose event went out stays applied when a later request fails (no second event on redelivery)."
 
 
 def _ins_edges(f, b, put_bi):
@@ -484,6 +485,13 @@ def r12(ctx):
     ctx.check(okc, "C12.R12", "actor::Actor::open", "replicas-get-the-actor's-callback", "; ".join(detc) or "no call of set_content_status_callback in the actor", None)
     ctx.floor("C12.R12", 2)
 
+def r13(ctx):
+    """"every entry that is applied to a replica produces exactly one insert event": an entry whose event went out stays applied - a
+    later request that fails does not roll the shared write transaction back (it would make a redelivery of the entry a second
+    insert with a second event): the failing-body rows of C06.R4"""
+    from . import C06
+    C06.share_failing_body(ctx, "C12.R13")
+
 def run(ctx):
     ctx.run_rule("C12.R1", r1)
     ctx.run_rule("C12.R2", r2)
@@ -497,3 +505,4 @@ def run(ctx):
     ctx.run_rule("C12.R10", r10)
     ctx.run_rule("C12.R11", r11)
     ctx.run_rule("C12.R12", r12)
+    ctx.run_rule("C12.R13", r13)
